@@ -535,21 +535,6 @@ fn write_regular_header(
 ) -> Result<(), RejectReason> {
     let len_key = key.len() as u32;
     let len_val = value.len() as u32;
-    let start = kawa.storage.end as u32;
-    let end_before_val = kawa.storage.end;
-    if kawa.storage.write_all(value).is_err() {
-        return Err(RejectReason::OversizedPseudoValue);
-    }
-    // All-or-nothing write_all: storage.end advanced by exactly the value length.
-    debug_assert_eq!(
-        kawa.storage.end,
-        end_before_val + value.len(),
-        "regular header value write must advance storage.end by value.len()"
-    );
-    let val = Store::Slice(Slice {
-        start,
-        len: len_val,
-    });
     if compare_no_case(key, b"content-length") {
         // RFC 9110 §8.6: Content-Length is 1*DIGIT. `usize::from_str` would
         // accept leading whitespace, a leading `+`, or trailing garbage — all
@@ -566,29 +551,50 @@ fn write_regular_header(
             return Err(RejectReason::DuplicateCl);
         }
     }
+    // The key goes into the storage before the value, the order in which an
+    // HTTP/1.1 writer emits them: `Kawa::consume` frees the storage up to
+    // the first slice still queued in `out`, so slices must be queued in
+    // increasing storage order. With the value stored first, a write to an
+    // HTTP/1.1 peer that stopped between a key and its value freed the
+    // value's bytes under it (worker panic on the next compaction).
+    let start = kawa.storage.end as u32;
     let end_before_key = kawa.storage.end;
     if kawa.storage.write_all(key).is_err() {
         return Err(RejectReason::OversizedPseudoValue);
     }
-    // The key was appended immediately after the value, so it starts at
-    // `start + len_val` and the two slices tile [start, end) contiguously
-    // with no gap and no overlap.
+    // All-or-nothing write_all: storage.end advanced by exactly the key length.
     debug_assert_eq!(
         kawa.storage.end,
         end_before_key + key.len(),
         "regular header key write must advance storage.end by key.len()"
     );
-    debug_assert_eq!(
-        end_before_key as u32,
-        start + len_val,
-        "key must begin exactly where the value ended (contiguous, no gap)"
-    );
     let key = Store::Slice(Slice {
-        start: start + len_val,
+        start,
         len: len_key,
     });
+    let end_before_val = kawa.storage.end;
+    if kawa.storage.write_all(value).is_err() {
+        return Err(RejectReason::OversizedPseudoValue);
+    }
+    // The value was appended immediately after the key, so it starts at
+    // `start + len_key` and the two slices tile [start, end) contiguously
+    // with no gap and no overlap.
+    debug_assert_eq!(
+        kawa.storage.end,
+        end_before_val + value.len(),
+        "regular header value write must advance storage.end by value.len()"
+    );
+    debug_assert_eq!(
+        end_before_val as u32,
+        start + len_key,
+        "value must begin exactly where the key ended (contiguous, no gap)"
+    );
+    let val = Store::Slice(Slice {
+        start: start + len_key,
+        len: len_val,
+    });
     debug_assert!(
-        (start + len_val + len_key) as usize <= kawa.storage.end,
+        (start + len_key + len_val) as usize <= kawa.storage.end,
         "key+val slices must stay within the written storage region"
     );
     kawa.push_block(Block::Header(Pair { key, val }));
